@@ -46,7 +46,17 @@ func (dec *Decoder) decodeBool(t reflect.Type, tag byte, p *bool) {
 		case 1:
 			*p = bytes[0] != '0'
 		default:
-			*p = true
+			// the value, not the length of its text: 0.0, -0 and 0e0 are zero too
+			*p = false
+			for _, c := range bytes {
+				if c == 'e' || c == 'E' {
+					break
+				}
+				if c >= '1' && c <= '9' {
+					*p = true
+					break
+				}
+			}
 		}
 	case TagInfinity:
 		dec.Skip()
